@@ -42,6 +42,8 @@ GenReqs == MCReqs \cup {
   \* the fused terms x histogram collector, fractional intervals 0.1 / 0.3 on the full field q
   << <<"t", Terms("g", 10, 1, CountDesc, << <<"h", Hist("q", 2, 0, 0, <<>>)>> >>)>> >>,
   << <<"t", Terms("g", 10, 1, Ord("key", TRUE, "", ""), << <<"h", Hist("q", 2, 0, 1, <<>>)>> >>)>> >>,
+  \* .. and the same shape over an optional (w) column, which must not take the fused path
+  << <<"t", Terms("g", 10, 1, CountDesc, << <<"h", Hist("w", 2, 0, 1, <<>>)>> >>)>> >>,
   << <<"t", Terms("g", 1, 1, CountDesc, << <<"h", HistExt("q", 6, 2, -3, 21, <<>>)>> >>)>>, <<"h", Hist("q", 2, 0, 0, Subs1)>> >>,
   << <<"co", Composite(10, << <<"a", "g", TRUE>>, <<"b", "w", TRUE>> >>, << <<"th", TopHits(2, << <<"g", TRUE>>, <<"id", TRUE>> >>, <<"id">>)>> >>)>> >> }
 
